@@ -1,0 +1,471 @@
+//go:build verif
+
+package cty
+
+// This file exists only for the verification harness in /verif (build tag
+// "verif"). It adds read-only inspection functions and changes no behaviour.
+
+import (
+	"bytes"
+	"fmt"
+	"math/big"
+	"sort"
+
+	"github.com/zclconf/go-cty/cty/set"
+)
+
+// VerifWellFormed inspects the internal representation of v and reports the
+// first inconsistency between payload and type, or nil.
+func VerifWellFormed(v Value) error {
+	return verifWellFormed(v.ty, v.v, "", true)
+}
+
+func verifWellFormed(ty Type, raw interface{}, path string, markerAllowed bool) error {
+	if ty == NilType {
+		return fmt.Errorf("%s: NilType", path)
+	}
+	if mr, ok := raw.(marker); ok {
+		if !markerAllowed {
+			return fmt.Errorf("%s: marker where none is allowed (nested marker or marked set member)", path)
+		}
+		if len(mr.marks) == 0 {
+			return fmt.Errorf("%s: marker with empty mark set", path)
+		}
+		if _, nested := mr.realV.(marker); nested {
+			return fmt.Errorf("%s: marker nested directly inside a marker", path)
+		}
+		return verifWellFormed(ty, mr.realV, path, false)
+	}
+	if raw == nil {
+		return nil // null of any type
+	}
+	if unk, ok := raw.(*unknownType); ok {
+		if unk == nil {
+			return fmt.Errorf("%s: nil *unknownType", path)
+		}
+		return verifRefinement(ty, unk.refinement, path)
+	}
+	if ty == DynamicPseudoType {
+		return fmt.Errorf("%s: known non-null payload %T for DynamicPseudoType", path, raw)
+	}
+	switch {
+	case ty == Bool:
+		if _, ok := raw.(bool); !ok {
+			return fmt.Errorf("%s: bool payload is %T", path, raw)
+		}
+	case ty == Number:
+		f, ok := raw.(*big.Float)
+		if !ok {
+			return fmt.Errorf("%s: number payload is %T", path, raw)
+		}
+		if f == nil {
+			return fmt.Errorf("%s: nil *big.Float", path)
+		}
+	case ty == String:
+		s, ok := raw.(string)
+		if !ok {
+			return fmt.Errorf("%s: string payload is %T", path, raw)
+		}
+		if NormalizeString(s) != s {
+			return fmt.Errorf("%s: string payload %q is not normalized", path, s)
+		}
+	case ty.IsListType():
+		l, ok := raw.([]interface{})
+		if !ok {
+			return fmt.Errorf("%s: list payload is %T", path, raw)
+		}
+		ety := ty.ElementType()
+		for i, ev := range l {
+			if err := verifWellFormed(ety, ev, fmt.Sprintf("%s[%d]", path, i), true); err != nil {
+				return err
+			}
+		}
+	case ty.IsMapType():
+		m, ok := raw.(map[string]interface{})
+		if !ok {
+			return fmt.Errorf("%s: map payload is %T", path, raw)
+		}
+		ety := ty.ElementType()
+		for k, ev := range m {
+			if NormalizeString(k) != k {
+				return fmt.Errorf("%s: map key %q is not normalized", path, k)
+			}
+			if err := verifWellFormed(ety, ev, fmt.Sprintf("%s[%q]", path, k), true); err != nil {
+				return err
+			}
+		}
+	case ty.IsSetType():
+		s, ok := raw.(set.Set[interface{}])
+		if !ok {
+			return fmt.Errorf("%s: set payload is %T", path, raw)
+		}
+		ety := ty.ElementType()
+		rules, ok := s.Rules().(setRules)
+		if !ok {
+			return fmt.Errorf("%s: set rules are %T", path, s.Rules())
+		}
+		if !rules.Type.Equals(ety) {
+			return fmt.Errorf("%s: set rules are for %#v but the element type is %#v", path, rules.Type, ety)
+		}
+		for h, bucket := range s.VerifBuckets() {
+			if len(bucket) == 0 {
+				return fmt.Errorf("%s: empty bucket %d left in set", path, h)
+			}
+			for i, ev := range bucket {
+				if err := verifWellFormed(ety, ev, fmt.Sprintf("%s{bucket %d #%d}", path, h, i), false); err != nil {
+					return err
+				}
+				if verifContainsMarker(ev) {
+					return fmt.Errorf("%s: set member contains a marker", path)
+				}
+				if got := rules.Hash(ev); got != h {
+					return fmt.Errorf("%s: member hashes to %d but sits in bucket %d", path, got, h)
+				}
+				for j := 0; j < i; j++ {
+					if rules.Equivalent(bucket[j], ev) {
+						return fmt.Errorf("%s: two equivalent members in bucket %d", path, h)
+					}
+				}
+			}
+		}
+	case ty.IsTupleType():
+		l, ok := raw.([]interface{})
+		if !ok {
+			return fmt.Errorf("%s: tuple payload is %T", path, raw)
+		}
+		etys := ty.TupleElementTypes()
+		if len(l) != len(etys) {
+			return fmt.Errorf("%s: tuple payload has %d elements, type has %d", path, len(l), len(etys))
+		}
+		for i, ev := range l {
+			if err := verifWellFormed(etys[i], ev, fmt.Sprintf("%s[%d]", path, i), true); err != nil {
+				return err
+			}
+		}
+	case ty.IsObjectType():
+		m, ok := raw.(map[string]interface{})
+		if !ok {
+			return fmt.Errorf("%s: object payload is %T", path, raw)
+		}
+		atys := ty.AttributeTypes()
+		if len(ty.OptionalAttributes()) != 0 {
+			return fmt.Errorf("%s: value's object type carries optional attributes", path)
+		}
+		if len(m) != len(atys) {
+			return fmt.Errorf("%s: object payload has %d attributes, type has %d", path, len(m), len(atys))
+		}
+		for k, ev := range m {
+			aty, ok := atys[k]
+			if !ok {
+				return fmt.Errorf("%s: object payload has undeclared attribute %q", path, k)
+			}
+			if err := verifWellFormed(aty, ev, path+"."+k, true); err != nil {
+				return err
+			}
+		}
+	case ty.IsCapsuleType():
+		// any non-nil payload
+	default:
+		return fmt.Errorf("%s: unsupported type %#v", path, ty)
+	}
+	return nil
+}
+
+func verifContainsMarker(raw interface{}) bool {
+	switch tv := raw.(type) {
+	case marker:
+		return true
+	case []interface{}:
+		for _, ev := range tv {
+			if verifContainsMarker(ev) {
+				return true
+			}
+		}
+	case map[string]interface{}:
+		for _, ev := range tv {
+			if verifContainsMarker(ev) {
+				return true
+			}
+		}
+	case set.Set[interface{}]:
+		for _, b := range tv.VerifBuckets() {
+			for _, ev := range b {
+				if verifContainsMarker(ev) {
+					return true
+				}
+			}
+		}
+	}
+	return false
+}
+
+func verifRefinement(ty Type, r unknownValRefinement, path string) error {
+	if r == nil {
+		return nil
+	}
+	switch n := r.null(); n {
+	case tristateTrue, tristateFalse, tristateUnknown:
+	default:
+		return fmt.Errorf("%s: illegal tristate %q", path, rune(n))
+	}
+	switch tr := r.(type) {
+	case *refinementString:
+		if ty != String {
+			return fmt.Errorf("%s: string refinement on %#v", path, ty)
+		}
+		if NormalizeString(tr.prefix) != tr.prefix {
+			return fmt.Errorf("%s: refinement prefix %q not normalized", path, tr.prefix)
+		}
+	case *refinementNumber:
+		if ty != Number {
+			return fmt.Errorf("%s: number refinement on %#v", path, ty)
+		}
+		for _, b := range []Value{tr.min, tr.max} {
+			if b == NilVal {
+				continue
+			}
+			if b.ty != Number || !b.IsKnown() || b.IsNull() || b.IsMarked() {
+				return fmt.Errorf("%s: numeric bound %#v is not a known, non-null, unmarked number", path, b)
+			}
+		}
+		if tr.min != NilVal && tr.max != NilVal {
+			c := tr.min.v.(*big.Float).Cmp(tr.max.v.(*big.Float))
+			if c > 0 || (c == 0 && !(tr.minInc && tr.maxInc)) {
+				return fmt.Errorf("%s: empty numeric range %#v..%#v", path, tr.min, tr.max)
+			}
+		}
+	case *refinementCollection:
+		if !ty.IsCollectionType() {
+			return fmt.Errorf("%s: collection refinement on %#v", path, ty)
+		}
+		if tr.minLen < 0 || tr.minLen > tr.maxLen {
+			return fmt.Errorf("%s: length bounds %d..%d", path, tr.minLen, tr.maxLen)
+		}
+	case *refinementNullable:
+		if ty == String || ty == Number || ty.IsCollectionType() || ty == DynamicPseudoType {
+			if !(ty == DynamicPseudoType) {
+				return fmt.Errorf("%s: plain nullable refinement on %#v", path, ty)
+			}
+			return fmt.Errorf("%s: refinement on DynamicPseudoType", path)
+		}
+	default:
+		return fmt.Errorf("%s: unknown refinement kind %T", path, r)
+	}
+	return nil
+}
+
+// VerifFingerprint is a canonical dump of the complete internal state of v:
+// type, payload kinds, big.Float sign/precision/mode/mantissa/exponent, string
+// bytes, slots in order, map entries by sorted key, set buckets by sorted hash
+// with members in bucket order, mark sets, refinement fields.
+func VerifFingerprint(v Value) []byte {
+	var buf bytes.Buffer
+	verifTypeFP(&buf, v.ty)
+	buf.WriteByte('=')
+	verifFP(&buf, v.ty, v.v)
+	return buf.Bytes()
+}
+
+// VerifTypeFingerprint dumps a type including optional-attribute sets.
+func VerifTypeFingerprint(t Type) []byte {
+	var buf bytes.Buffer
+	verifTypeFP(&buf, t)
+	return buf.Bytes()
+}
+
+func verifTypeFP(buf *bytes.Buffer, t Type) {
+	switch {
+	case t == NilType:
+		buf.WriteString("nil")
+	case t == DynamicPseudoType:
+		buf.WriteString("dyn")
+	case t.IsPrimitiveType():
+		buf.WriteString(t.FriendlyName())
+	case t.IsListType():
+		buf.WriteString("list(")
+		verifTypeFP(buf, t.ElementType())
+		buf.WriteByte(')')
+	case t.IsSetType():
+		buf.WriteString("set(")
+		verifTypeFP(buf, t.ElementType())
+		buf.WriteByte(')')
+	case t.IsMapType():
+		buf.WriteString("map(")
+		verifTypeFP(buf, t.ElementType())
+		buf.WriteByte(')')
+	case t.IsTupleType():
+		buf.WriteString("tuple(")
+		for _, et := range t.typeImpl.(typeTuple).ElemTypes {
+			verifTypeFP(buf, et)
+			buf.WriteByte(',')
+		}
+		buf.WriteByte(')')
+	case t.IsObjectType():
+		ot := t.typeImpl.(typeObject)
+		names := make([]string, 0, len(ot.AttrTypes))
+		for k := range ot.AttrTypes {
+			names = append(names, k)
+		}
+		sort.Strings(names)
+		buf.WriteString("object(")
+		for _, k := range names {
+			fmt.Fprintf(buf, "%q", k)
+			if _, opt := ot.AttrOptional[k]; opt {
+				buf.WriteByte('?')
+			}
+			buf.WriteByte(':')
+			verifTypeFP(buf, ot.AttrTypes[k])
+			buf.WriteByte(',')
+		}
+		buf.WriteByte(')')
+	case t.IsCapsuleType():
+		fmt.Fprintf(buf, "capsule(%p)", t.typeImpl)
+	default:
+		fmt.Fprintf(buf, "?%T", t.typeImpl)
+	}
+}
+
+func verifFP(buf *bytes.Buffer, ty Type, raw interface{}) {
+	switch tv := raw.(type) {
+	case nil:
+		buf.WriteString("null")
+	case marker:
+		buf.WriteString("marked{")
+		var ms []string
+		for m := range tv.marks {
+			ms = append(ms, fmt.Sprintf("%#v", m))
+		}
+		sort.Strings(ms)
+		for _, m := range ms {
+			buf.WriteString(m)
+			buf.WriteByte(';')
+		}
+		buf.WriteByte('|')
+		verifFP(buf, ty, tv.realV)
+		buf.WriteByte('}')
+	case *unknownType:
+		buf.WriteString("unknown")
+		if tv.refinement != nil {
+			fmt.Fprintf(buf, "<%T null=%q", tv.refinement, rune(tv.refinement.null()))
+			switch tr := tv.refinement.(type) {
+			case *refinementString:
+				fmt.Fprintf(buf, " prefix=%q", tr.prefix)
+			case *refinementNumber:
+				buf.WriteString(" min=")
+				if tr.min != NilVal {
+					verifFP(buf, Number, tr.min.v)
+				}
+				fmt.Fprintf(buf, "/%t max=", tr.minInc)
+				if tr.max != NilVal {
+					verifFP(buf, Number, tr.max.v)
+				}
+				fmt.Fprintf(buf, "/%t", tr.maxInc)
+			case *refinementCollection:
+				fmt.Fprintf(buf, " len=%d..%d", tr.minLen, tr.maxLen)
+			}
+			buf.WriteByte('>')
+		}
+	case bool:
+		fmt.Fprintf(buf, "%t", tv)
+	case *big.Float:
+		if tv == nil {
+			buf.WriteString("num(nil)")
+			return
+		}
+		mant := new(big.Float)
+		exp := tv.MantExp(mant)
+		fmt.Fprintf(buf, "num(sign=%d neg=%t prec=%d mode=%d inf=%t mant=%s exp=%d)", tv.Sign(), tv.Signbit(), tv.Prec(), tv.Mode(), tv.IsInf(), mant.Text('p', 0), exp)
+	case string:
+		fmt.Fprintf(buf, "%q", tv)
+	case []interface{}:
+		buf.WriteByte('[')
+		var etys []Type
+		if ty.IsTupleType() {
+			etys = ty.typeImpl.(typeTuple).ElemTypes
+		}
+		for i, ev := range tv {
+			ety := DynamicPseudoType
+			if etys != nil && i < len(etys) {
+				ety = etys[i]
+			} else if ty.IsListType() {
+				ety = ty.ElementType()
+			}
+			verifFP(buf, ety, ev)
+			buf.WriteByte(',')
+		}
+		buf.WriteByte(']')
+	case map[string]interface{}:
+		keys := make([]string, 0, len(tv))
+		for k := range tv {
+			keys = append(keys, k)
+		}
+		sort.Strings(keys)
+		buf.WriteByte('{')
+		for _, k := range keys {
+			ety := DynamicPseudoType
+			if ty.IsMapType() {
+				ety = ty.ElementType()
+			} else if ty.IsObjectType() {
+				if aty, ok := ty.typeImpl.(typeObject).AttrTypes[k]; ok {
+					ety = aty
+				}
+			}
+			fmt.Fprintf(buf, "%q:", k)
+			verifFP(buf, ety, tv[k])
+			buf.WriteByte(',')
+		}
+		buf.WriteByte('}')
+	case set.Set[interface{}]:
+		verifSetFP(buf, tv)
+	default:
+		// capsule payloads: identity only
+		fmt.Fprintf(buf, "opaque(%T %p)", raw, raw)
+	}
+}
+
+func verifSetFP(buf *bytes.Buffer, s set.Set[interface{}]) {
+	ety := DynamicPseudoType
+	if rules, ok := s.Rules().(setRules); ok {
+		ety = rules.Type
+	}
+	b := s.VerifBuckets()
+	hs := make([]int, 0, len(b))
+	for h := range b {
+		hs = append(hs, h)
+	}
+	sort.Ints(hs)
+	buf.WriteString("set<")
+	verifTypeFP(buf, ety)
+	buf.WriteString(">{")
+	for _, h := range hs {
+		fmt.Fprintf(buf, "%d:[", h)
+		for _, ev := range b[h] {
+			verifFP(buf, ety, ev)
+			buf.WriteByte(',')
+		}
+		buf.WriteString("],")
+	}
+	buf.WriteByte('}')
+}
+
+// VerifValueSetFingerprint dumps the internal state of a ValueSet.
+func VerifValueSetFingerprint(s ValueSet) []byte {
+	var buf bytes.Buffer
+	verifSetFP(&buf, s.s)
+	return buf.Bytes()
+}
+
+// VerifValueSetBuckets exposes a copy of the bucket structure of a ValueSet as
+// values, for the C03 bucket invariant.
+func VerifValueSetBuckets(s ValueSet) map[int][]Value {
+	ety := s.ElementType()
+	out := map[int][]Value{}
+	for h, b := range s.s.VerifBuckets() {
+		vs := make([]Value, len(b))
+		for i, ev := range b {
+			vs[i] = Value{ty: ety, v: ev}
+		}
+		out[h] = vs
+	}
+	return out
+}
